@@ -15,6 +15,7 @@ import (
 
 	mail "github.com/wneessen/go-mail"
 
+	"verif/harness/mimefam"
 	"verif/harness/mimeread"
 	"verif/harness/pipeconn"
 	"verif/harness/rec"
@@ -51,6 +52,8 @@ type Runner struct {
 	Rec   *rec.Recorder
 	T     int
 	Infra error
+	// TmpDir: scratch directory (the stand-in sendmail binary lives there)
+	TmpDir string
 }
 
 func (rn *Runner) strs(ts []string) []string {
@@ -221,6 +224,25 @@ func (rn *Runner) Run() {
 	for _, f := range e.Fields {
 		if d, err := mimeread.DecodeWords(f.Value); err == nil {
 			decoded += "\n" + d
+		}
+	}
+	// the rendering a local sendmail binary is given (WriteToSendmail*) is a rendering of the message too: every eighth
+	// scenario with a Bcc list hands the message to the stand-in binary as well (the calls are serialised: one spool file)
+	if len(m.GetBcc()) > 0 && rn.T%8 == 0 && rn.TmpDir != "" {
+		sm, serr := mimefam.SendmailRender(m, rn.TmpDir)
+		if serr != nil {
+			rn.Infra = fmt.Errorf("sendmail stand-in: %w", serr)
+			return
+		}
+		decoded += "\n" + string(sm)
+		es := mimeread.Parse(sm)
+		for _, f := range es.Fields {
+			if d, err := mimeread.DecodeWords(f.Value); err == nil {
+				decoded += "\n" + d
+			}
+		}
+		if _, n := es.Get("Bcc"); n > 0 {
+			counts["Bcc"] = n
 		}
 	}
 	present := map[string]interface{}{}
